@@ -29,7 +29,7 @@ def base_settings(rng):
     for m in gen.METHODS:
         for k in range(60):
             s, form = gen.gen_valid(rng, m)
-            if gen.cost_units(s, 8) <= BUDGET / 4 and len(s) <= 80:
+            if gen.cost_units(s, 8) <= BUDGET and len(s) <= 80:
                 out.append((m, s))
                 break
     return out
@@ -150,6 +150,8 @@ def do_chunk(args):
             acc.cls((cls, mname, e, "ok", prev_kind))
             continue
         acc.count("failures")
+        if cls == "sweep":
+            acc.count("swf/" + mname)
         acc.cls((cls, mname, e, mf or "method-refused", prev_kind))
         prev_kind = "failure"
         if err not in (rt.EINVAL, rt.ERANGE, rt.ENOMEM):
@@ -216,4 +218,5 @@ def run(tier):
         "requests outside the must-fail oracle may succeed or fail; then only the fail-closed shape is judged",
         "ENOMEM paths are C15's business",
         "exhaustive (thorough) refers to byte value x position per base setting"],
-        min_conclusive=5000, conclusive=int(a.n.get("failures", 0)))
+        min_conclusive=5000, conclusive=int(a.n.get("failures", 0)),
+        required={m: a.n.get("swf/" + m, 0) for m in gen.METHODS})
